@@ -1,6 +1,7 @@
 import LZ4V.Proofs.BlockHub
 import LZ4V.Proofs.FastMain
 import LZ4V.Proofs.FastXProof
+import LZ4V.HC.HC5
 /-!
 # C06 — compressed blocks conform to the block format (specification part)
 -/
@@ -54,5 +55,14 @@ theorem stream_block_conforms (hashOf : Array UInt8 → Bool → Nat → Nat) (o
       (∀ s ∈ seqs, 4 ≤ s.ml ∧ 1 ≤ s.off ∧ s.off ≤ 65535) ∧ endConditions seqs last = true ∧ covered seqs last = data.size := by
   obtain ⟨seqs, last, e, hwf, hv, h1, h2, h3⟩ := run_parsed hashOf ops {} [] Inv_init k addr data acc cap blk hop h [] _ rfl (Or.inl rfl)
   exact ⟨seqs, last, e, hv, fun s hs => ⟨(hwf s hs).1, h1 s hs, by have := (hwf s hs).2; omega⟩, h2, by rw [h3, Array.length_toList]⟩
+
+/-- **HC, hash-chain levels**: every sequence the parser emits, for every match finder honouring its contract, has a match length ≥ 4 and an offset in
+    1..65535 that does not reach before the available history (`off ≤ position` in `history ++ block`).  (The end-of-block restrictions of HC outputs are
+    checked per output by the verified parser.) -/
+theorem hc_sequences_offsets_conform (data : List UInt8) (o : HC.Oracle) (hO : HC.OracleOK data o) (mflimit n : Nat) (start : Nat) :
+    ∀ e ∈ (HC.run o mflimit n (.main start start)).2, 4 ≤ e.len ∧ 1 ≤ e.off ∧ e.off ≤ 65535 ∧ e.off ≤ e.ip := by
+  intro e he
+  obtain ⟨_, h2, h3, h4, h5, _⟩ := (HC.run_ok data o hO mflimit n (.main start start) (Nat.le_refl _)).2 e he
+  exact ⟨h2, h3, h4, h5⟩
 
 end LZ4V.C06
